@@ -9,7 +9,7 @@ from .. import core, execgen_hash, execsuite, families
 def run(R, ctx):
     execsuite.run_exec_suite(
         R, ctx, name="hash",
-        gens=[(1, execgen_hash.hash_cmd)],
+        gens=[(1, families.hash_reread(execgen_hash.hash_cmd))],
         nprog=(500, 8000), corpus="exec_c10",
         extra_lines=families.refused_changes_nothing(random.Random(R.seed * 31 + 10), 120 if R.tier == "quick" else 2000),
         what="hash commands (HSET with one to four pairs incl. repeated fields and odd argument counts, HSETNX, HGET, HMGET, HGETALL, HKEYS, "
